@@ -137,6 +137,12 @@ func (b *builder) addLegend() {
 	fmt.Fprintf(b, "] }\n")
 }
 
+// formatValue formats a value for use inside a double-quoted DOT string: the
+// formatted text ends in the sample unit, which comes from the profile.
+func (b *builder) formatValue(v int64) string {
+	return escapeForDot(b.config.FormatValue(v))
+}
+
 // addNode generates a graph node in DOT format.
 func (b *builder) addNode(node *Node, nodeID int, maxFlat float64) {
 	flat, cum := node.FlatValue(), node.CumValue()
@@ -150,7 +156,7 @@ func (b *builder) addNode(node *Node, nodeID int, maxFlat float64) {
 		label = multilinePrintableName(&node.Info)
 	}
 
-	flatValue := b.config.FormatValue(flat)
+	flatValue := b.formatValue(flat)
 	if flat != 0 {
 		label = label + fmt.Sprintf(`%s (%s)`,
 			flatValue,
@@ -165,7 +171,7 @@ func (b *builder) addNode(node *Node, nodeID int, maxFlat float64) {
 		} else {
 			label = label + " "
 		}
-		cumValue = b.config.FormatValue(cum)
+		cumValue = b.formatValue(cum)
 		label = label + fmt.Sprintf(`of %s (%s)`,
 			cumValue,
 			strings.TrimSpace(measurement.Percentage(cum, b.config.Total)))
@@ -246,7 +252,7 @@ func (b *builder) addNodelets(node *Node, nodeID int) bool {
 		if w == 0 {
 			continue
 		}
-		weight := b.config.FormatValue(w)
+		weight := b.formatValue(w)
 		nodelets += fmt.Sprintf(`N%d_%d [label = "%s" id="N%d_%d" fontsize=8 shape=box3d tooltip="%s"]`+"\n", nodeID, i, escapeTagForDot(t.Name), nodeID, i, weight)
 		nodelets += fmt.Sprintf(`N%d -> N%d_%d [label=" %s" weight=100 tooltip="%s" labeltooltip="%s"]`+"\n", nodeID, nodeID, i, weight, weight, weight)
 		if nts := lnts[t.Name]; nts != nil {
@@ -273,7 +279,7 @@ func (b *builder) numericNodelets(nts []*Tag, maxNumNodelets int, flatTags bool,
 			w, attr = t.FlatValue(), ""
 		}
 		if w != 0 {
-			weight := b.config.FormatValue(w)
+			weight := b.formatValue(w)
 			nodelets += fmt.Sprintf(`N%s_%d [label = "%s" id="N%s_%d" fontsize=8 shape=box3d tooltip="%s"]`+"\n", source, j, escapeTagForDot(t.Name), source, j, weight)
 			nodelets += fmt.Sprintf(`%s -> N%s_%d [label=" %s" weight=100 tooltip="%s" labeltooltip="%s"%s]`+"\n", source, source, j, weight, weight, weight, attr)
 		}
@@ -287,7 +293,7 @@ func (b *builder) addEdge(edge *Edge, from, to int, hasNodelets bool) {
 	if edge.Inline {
 		inline = `\n (inline)`
 	}
-	w := b.config.FormatValue(edge.WeightValue())
+	w := b.formatValue(edge.WeightValue())
 	attr := fmt.Sprintf(`label=" %s%s"`, w, inline)
 	if b.config.Total != 0 {
 		// Note: edge.weight > b.config.Total is possible for profile diffs.
@@ -390,7 +396,10 @@ func multilinePrintableName(info *NodeInfo) string {
 	infoCopy.Name = strings.Replace(infoCopy.Name, "[...]", "[…]", -1)
 	infoCopy.Name = strings.Replace(infoCopy.Name, ".", `\n`, -1)
 	if infoCopy.File != "" {
-		infoCopy.File = filepath.Base(infoCopy.File)
+		infoCopy.File = escapeForDot(filepath.Base(infoCopy.File))
+	}
+	if infoCopy.Objfile != "" {
+		infoCopy.Objfile = escapeForDot(filepath.Base(infoCopy.Objfile))
 	}
 	return strings.Join(infoCopy.NameComponents(), `\n`) + `\n`
 }
